@@ -16,20 +16,26 @@ func H_C17_dq() {
 	s := verif.Str("s", maxLen, alpha)
 	// the implementation runs first, on the still symbolic bytes
 	out, err := DoubleQuotesToBackTick(s)
-	class, typ, start, _, val := verif.MySQLScan(s)
+	class, typ, start, end, val := verif.MySQLScan(s)
+	embedded := false // a double-quoted identifier whose body contains a (doubled) quote
 	for i, c := range class {
 		if c == verif.TokError {
 			verif.Assume(false) // inputs the tokenizer rejects are outside the claim
 		}
 		// identifier bodies are assumed free of backslashes and backticks (the two quoting styles decode them differently)
 		if c == verif.TokString && s[start[i]] == '"' {
-			for k := 0; k < len(val[i]); k++ {
-				if val[i][k] == '\\' || val[i][k] == '`' {
+			for k := start[i]; k < end[i]; k++ {
+				if s[k] == '\\' || s[k] == '`' {
 					verif.Assume(false)
 				}
 			}
 			if len(val[i]) == 0 {
 				verif.Assume(false) // `` is not a valid identifier
+			}
+			for k := 0; k < len(val[i]); k++ {
+				if val[i][k] == '"' {
+					embedded = true
+				}
 			}
 		}
 	}
@@ -50,7 +56,11 @@ func H_C17_dq() {
 			}
 		}
 	}
-	verif.Assert(ok, "only-identifier-quoting-changes")
+	if embedded {
+		verif.Assert(ok, "identifier-with-embedded-quote")
+	} else {
+		verif.Assert(ok, "only-identifier-quoting-changes")
+	}
 	verif.Reach("end")
 }
 
